@@ -1,11 +1,19 @@
-"""C02: see DESIGN.md §6.C02. Spec: spec/Npc.tla + spec/NpcProgram.tla; replay: harness/npc_check.py."""
-from harness import core, npc_check
+"""C02: see DESIGN.md §6.C02. Spec: spec/Npc.tla + spec/NpcProgram.tla (replay: harness/npc_check.py) and
+spec/NpcCtor.tla (constructors, charge-changing methods, grids, label API, element-wise operations; harness/npc_ctor.py)."""
+import json
+
+from harness import core, npc_check, npc_ctor
 
 
 def check(ctx):
     if ctx.replay_file:
+        with open(ctx.replay_file) as f:
+            sig = json.load(f).get('signature', {})
+        if sig.get('spec') == 'NpcCtor':
+            return npc_ctor.replay_file(ctx, ctx.replay_file)
         return npc_check.replay_file(ctx, 'C02')
     npc_check.run_property(ctx, 'C02', seed_offset=2)
+    npc_ctor.run_phase(ctx, 'C02')
 
 
 if __name__ == '__main__':
